@@ -17,10 +17,15 @@ THEOREMS = [
     "C19_super_cache_transparent", "C19_earlier_queries_irrelevant",
     "C19_implementedBy_eq_providedBy_on_super", "C19_super_adaptation", "C19_super_multi_adaptation",
     "C19_super_adapter_selected", "C19_flat_semantics", "C19_notified_exactly_dependents",
+    "C19_histories_keep_specs_acyclic", "C19_class_bound_same_as_instance_bound", "C19_class_bound_spec_exact",
+    "C19_class_bound_adapter_selected", "C19_unbound_proxy_is_empty",
     "C19_generated_next_super_class_eq_model", "C19_generated_implementedBy_super_eq_model",
     "C19_generated_changed_eq_model", "C19_generated_entry_points_eq_model",
     "C19_generated_adapter_hook_eq_model", "C19_generated_queryMultiAdapter_eq_model",
+    "C19_generated_c_implementedBy_eq_model", "C19_generated_c_providedBy_eq_model",
+    "C19_generated_c_adapter_hook_eq_model",
 ]
+GEN_C_FILE = os.path.join(C.COQ, "Gen", "SuperC.v")
 GEN_FILE = os.path.join(C.COQ, "Gen", "SuperKernel.v")
 
 
@@ -40,9 +45,23 @@ def regenerate(run):
         errs.append("harness/translate/super_kernel.py refused the current declarations.py / adapter.py (%s: %s); "
                     "coq/Gen/SuperKernel.v holds the pinned kernel, so the C19_generated_*_eq_model theorems are "
                     "NOT about the current source" % (type(e).__name__, e))
+    # the C twins: data-level kernel (which object is tested / unwrapped / passed on)
+    from ..translate import super_c as TC
+    c_ok = True
+    try:
+        ctext = TC.extract(C.REPO)
+    except Exception as e:  # noqa: Abort, OSError ...
+        ctext = TC.PINNED
+        c_ok = False
+        errs.append("harness/translate/super_c.py refused the current _zope_interface_coptimizations.c (%s: %s); "
+                    "coq/Gen/SuperC.v holds the pinned kernel, so the C19_generated_c_*_eq_model theorems are NOT "
+                    "about the current source" % (type(e).__name__, e))
     with C.CoqLock():
         C.write_if_changed(GEN_FILE, text)
-    run.coverage["translated_kernel"] = {"source": src, "generated": "coq/Gen/SuperKernel.v", "ok": not errs}
+        C.write_if_changed(GEN_C_FILE, ctext)
+    run.coverage["translated_kernel"] = {"source": src, "generated": "coq/Gen/SuperKernel.v, coq/Gen/SuperC.v",
+                                         "ok": not errs,
+                                         "c_ok": c_ok}
     # the Tie (model + Spec oracle) does not depend on the generated kernel and must exist even when
     # the equality proofs over a changed kernel fail
     ok, out = C.coq_make(["Tie/C19.vo"])
@@ -62,16 +81,19 @@ RULE = ("class DAGs of 1-6 classes above object (chains, diamonds, mixins withou
         "adaptation hit/miss pattern, #classes) signature")
 TRUSTED_BASE = [
     "harness/translate/super_kernel.py (fail-closed ast translator) and its vocabulary coq/Model/SuperPrims.v: "
-    "one total function per accepted Python construct; the C twins (PySuper_Type checks, _adapter_hook) and "
-    "Specification.changed's walk over the dependents are tied by the correspondence only",
+    "one total function per accepted Python construct; harness/translate/super_c.py (template match over C11's "
+    "tokeniser) and coq/Model/SuperCPrims.v for the C twins (reference counting not translated: C11); "
+    "Specification.changed's walk over the dependents is tied by the correspondence only",
     "Model/Ro.v C3 resolver as Python's MRO (validated against every class's real __mro__ on every run)",
     "content of a specification = recomputation from the live declarations (property C02: change propagation "
     "keeps the cached __sro__/_implied equal to it); order inside __iro__ not modelled",
     "set-level reading of the uncached registry lookup (the tie registers adapters under pairwise different names)",
 ]
 ASSUMPTIONS = ["class __bases__ are never reassigned; interface __bases__ are not changed during a history",
-               "declarations are made with interfaces (not with other classes' specifications)",
-               "super(C, ob) is the bound two-argument form on an instance"]
+               "a class declares another class's specification only if that class was created before it "
+               "(declaring a subclass's specification makes the specification graph cyclic; the real code recurses)",
+               "unbound proxies super(C) are queried but not adapted (see the report: adapting one corrupts the "
+               "shared empty declaration on the next registry change)"]
 
 
 # --------------------------------------------------------------------------- generator
@@ -195,6 +217,8 @@ def gen_case(rng, tier):
             ops.append(["only", c, some_ifaces(rng.choice([0, 1, 2]))])
         else:
             ops.append(["impl", c, some_ifaces(rng.choice([1, 1, 2]))])
+        if c > 1 and rng.random() < 0.12:
+            ops.append(["implspec", c, rng.randrange(1, c)])      # classImplements(c, implementedBy(b)), b older
     names = [rng.choice([-1, 0])]       # pairwise different names; name 0 is the empty string
 
     def reg():
@@ -218,6 +242,17 @@ def gen_case(rng, tier):
                     ops.append(["implby", ["super", cc, j]])
             if rng.random() < 0.5:
                 ops.append(["prov", ["obj", j]])
+        # class-bound proxies super(C, T) for classes with and without instances
+        for t in range(1, nc + 1):
+            if rng.random() < 0.35:
+                for cc in mro[t]:
+                    if cc == 0 and rng.random() < 0.8:
+                        continue
+                    if rng.random() < 0.6:
+                        ops.append([rng.choice(["prov", "prov", "implby"]), ["superc", cc, t]])
+        # unbound proxies super(C)
+        if rng.random() < 0.3:
+            ops.append([rng.choice(["prov", "implby"]), ["unbound", rng.randrange(0, nc + 1)]])
 
     def adapts(k):
         for _ in range(k):
@@ -226,14 +261,23 @@ def gen_case(rng, tier):
             t = objects[j][0]
             cc = rng.choice(mro[t][:-1])
             p = rng.choice(range(0, ni + 1))
+            def proxy(j_, cc_):
+                r_ = rng.random()
+                if r_ < 0.25:
+                    return ["superc", cc_, objects[j_][0]]          # bound to the class object
+                # (unbound proxies are never adapted here: a registry lookup with the shared empty
+                #  declaration as required specification corrupts that process-wide singleton on the
+                #  next registry change -- _ImmutableDeclaration.weakref() returns the class, and calling
+                #  it re-runs __init__ -- which would leak into every later case of the run)
+                return ["super", cc_, j_]
             if len(req) == 1:
                 via = rng.choice(["qa", "hook", "multi"])
-                a = ["super", cc, j] if rng.random() < 0.85 else ["obj", j]
+                a = proxy(j, cc) if rng.random() < 0.85 else ["obj", j]
                 ops.append(["adapt", via, [a], p, nm])
             else:
                 j2 = rng.randrange(len(objects))
-                a1 = ["super", cc, j]
-                a2 = ["obj", j2] if rng.random() < 0.5 else ["super", rng.choice(mro[objects[j2][0]][:-1]), j2]
+                a1 = proxy(j, cc)
+                a2 = ["obj", j2] if rng.random() < 0.5 else proxy(j2, rng.choice(mro[objects[j2][0]][:-1]))
                 pair = [a1, a2] if rng.random() < 0.5 else [a2, a1]
                 ops.append(["adapt", "multi", pair, p, nm])
             if rng.random() < 0.5:
@@ -245,7 +289,9 @@ def gen_case(rng, tier):
         m = mro[objects[j][0]]
         c = rng.choice(m[:-1]) if rng.random() < 0.85 else rng.randrange(1, nc + 1)
         r = rng.random()
-        if r < 0.6:
+        if r < 0.18 and c > 1:
+            ops.append(["implspec", c, rng.randrange(1, c)])
+        elif r < 0.6:
             ops.append(["impl", c, some_ifaces(rng.choice([1, 1, 2]))])
         elif r < 0.8:
             ops.append(["only", c, some_ifaces(rng.choice([0, 1, 2]))])
@@ -322,7 +368,13 @@ def _lnat(l):
 
 
 def _arg(a):
-    return "(AObj %d)" % a[1] if a[0] == "obj" else "(ASuper %d %d)" % (a[1], a[2])
+    if a[0] == "obj":
+        return "(AObj %d)" % a[1]
+    if a[0] == "superc":
+        return "(ASuperC %d %d)" % (a[1], a[2])
+    if a[0] == "unbound":
+        return "(AUnbound %d)" % a[1]
+    return "(ASuper %d %d)" % (a[1], a[2])
 
 
 VIA = {"qa": "ViaQueryAdapter", "hook": "ViaAdapterHook", "multi": "ViaMulti"}
@@ -336,6 +388,8 @@ def _op(op):
         return "(OOnly %d %s)" % (op[1], _lnat(op[2]))
     if k == "first":
         return "(OFirst %d %d)" % (op[1], op[2])
+    if k == "implspec":
+        return "(OImplSpec %d %d)" % (op[1], op[2])
     if k == "prov":
         return "(OProvidedBy %s)" % _arg(op[1])
     if k == "implby":
@@ -386,7 +440,7 @@ def _features(case, obs):
     provides = {}
     for op, a in zip(case["ops"], obs.get("ans") or []):
         k = op[0]
-        if k in ("impl", "only", "first"):
+        if k in ("impl", "only", "first", "implspec"):
             c = op[1]
             declared.add(c)
             if k == "only":
@@ -397,10 +451,10 @@ def _features(case, obs):
                     change_after_warm = True
                     if t in only or any(x in only for x in m[:m.index(c)]):
                         change_below_only = True
-        elif k in ("prov", "implby") and op[1][0] == "super":
-            t = case["objects"][op[1][2]][0]
+        elif k in ("prov", "implby") and op[1][0] in ("super", "superc"):
+            t = case["objects"][op[1][2]][0] if op[1][0] == "super" else op[1][2]
             warm.add((t, op[1][1]))
-            full = provides.get(op[1][2])
+            full = provides.get(op[1][2]) if op[1][0] == "super" else None
             if full is not None and a[:1] == [1] and set(full) - set(a[3:]):
                 omitted = True
         elif k == "prov" and op[1][0] == "obj" and a[:1] == [1]:
@@ -464,7 +518,7 @@ def replay_text(case, obs, mode):
          "from zope.interface.adapter import AdapterRegistry",
          "I = [Interface]; K = [object]; registry = AdapterRegistry()",
          "show = lambda spec: sorted(I.index(i) for i in spec.flattened())",
-         "def factory(vid):", "    return lambda *obs: (vid, ['proxy' if isinstance(o, super) else O.index(o) for o in obs])"]
+         "def factory(vid):", "    return lambda *obs: (vid, ['proxy' if isinstance(o, super) else O.index(o) if o in O else o for o in obs])"]
     for k, bs in enumerate(case["ifaces"]):
         L.append("I.append(InterfaceClass('I%d', (%s), {}))" % (k + 1, "".join("I[%d], " % b for b in bs) or "Interface,"))
     for k, bs in enumerate(case["classes"]):
@@ -481,7 +535,13 @@ def replay_text(case, obs, mode):
     L.append("# real __mro__ (class numbers): %s" % json.dumps(obs.get("mros")))
 
     def arg(a):
-        return "O[%d]" % a[1] if a[0] == "obj" else "super(K[%d], O[%d])" % (a[1], a[2])
+        if a[0] == "obj":
+            return "O[%d]" % a[1]
+        if a[0] == "superc":
+            return "super(K[%d], K[%d])" % (a[1], a[2])
+        if a[0] == "unbound":
+            return "super(K[%d])" % a[1]
+        return "super(K[%d], O[%d])" % (a[1], a[2])
 
     for op, a, ip in zip(case["ops"], obs.get("ans", []), obs.get("ip", [])):
         k = op[0]
@@ -491,6 +551,8 @@ def replay_text(case, obs, mode):
             L.append("classImplementsOnly(K[%d], %s)" % (op[1], ", ".join("I[%d]" % i for i in op[2])))
         elif k == "first":
             L.append("classImplementsFirst(K[%d], I[%d])" % (op[1], op[2]))
+        elif k == "implspec":
+            L.append("classImplements(K[%d], implementedBy(K[%d]))" % (op[1], op[2]))
         elif k == "prov":
             L.append("print(show(providedBy(%s)))   # observed %s ; I.providedBy set %s" % (arg(op[1]), a, ip))
         elif k == "implby":
@@ -515,8 +577,10 @@ TECHNIQUE = ("Coq proof over a Gallina kernel regenerated from the source text b
              "Model/Lookup.v's adapter_hook / queryMultiAdapter; vm_compute correspondence with both implementations")
 LEVEL_TEXT = ("On every run _next_super_class, _implementedBy_super, Implements.changed, the super branches of implementedBy / "
               "providedBy and adapter_hook / queryMultiAdapter are re-translated from the current source text into "
-              "Gen/SuperKernel.v and proved equal to the model for all inputs and states (C19_generated_*_eq_model). "
-              "Machine-checked theorems (Properties/C19.v, 19 theorems, closed under the global context) state for every class DAG "
+              "Gen/SuperKernel.v, the PySuper_Type branches of the C providedBy / implementedBy and the C _adapter_hook into "
+              "the data-level Gen/SuperC.v, and both are proved equal to the model for all inputs and states "
+              "(C19_generated_*_eq_model, C19_generated_c_*_eq_model). "
+              "Machine-checked theorems (Properties/C19.v, 27 theorems, closed under the global context) state for every class DAG "
               "with a C3 MRO, every (C, ob) along the MRO and every history of declarations, registrations and queries "
               "that the specification answered for super(C, ob) contains exactly the interfaces implemented by the "
               "classes strictly after C, that the _super_cache never changes an answer (also when type(ob) was "
@@ -527,5 +591,5 @@ LEVEL_TEXT = ("On every run _next_super_class, _implementedBy_super, Implements.
               "class's real __mro__), and the raw answers are judged by an independent replay inside Coq.")
 LEVEL_NOTE = ("Trusted: Coq kernel/vm_compute; the hand-written transcription (validated by the correspondence); content of "
               "a specification is modelled as recomputation from live declarations (C02), order inside __iro__ is not "
-              "modelled; the registry lookup is read at set level (unique names in the tie). Not modelled: super(C, cls) "
-              "class-bound proxies, declarations made with other classes' specifications, reassignment of __bases__.")
+              "modelled; the registry lookup is read at set level (unique names in the tie). Not modelled: reassignment of __bases__, "
+              "declared specifications of later-created classes.")
